@@ -17,7 +17,8 @@ RULE = ("pairs of strictly increasing stamp vectors on integer lattices (unit 2^
         "independent or jittered/bursty counterparts, offsets of both signs, max_diff >= 0, both length "
         "orders, both storage modes, tagged poses; plus Philox-expanded bulk pairs up to 5000 stamps. "
         "Non-trivial = lengths differ or offset != 0 or a boundary hit or a contested counterpart; "
-        "distinct by SHA-1 of the case")
+        "distinct by SHA-1 of the case"
+        ' Round-3 addition: evo_traj --ref --sync with 1-3 trajectories (cli_sync).')
 ASSUMPTIONS = ["differences are evaluated exactly (fractions.Fraction) for drawn cases; for bulk cases in float64 with "
                "a 8-ulp ambiguity margin within which either decision is accepted"]
 
